@@ -24,6 +24,10 @@ type C14Case struct {
 	// for a second value of the SAME type, delivered after Reset+SetTarget:
 	// whatever an unfolder keeps per type must not leak into the next document.
 	Probe2 []model.Ev `json:"probe2,omitempty"`
+	// Pre: the target variable already holds this value (non-nil slices with
+	// spare capacity, maps with entries, allocated pointers) when the document
+	// arrives; the result is then only checked for safety, not for its value
+	Pre *gomodel.GoVal `json:"pre,omitempty"`
 }
 
 const sentinelWord = 0xA5A5F00DCAFE5A5A
@@ -104,6 +108,13 @@ func checkC14(ci any, info *CaseInfo) string {
 	}
 
 	wrapper, target := guardedTarget(typ)
+	if c.Pre != nil {
+		if rv, err := gomodel.Materialize(typ, c.Pre); err == nil {
+			info.Class("prefilled_target")
+			target.Elem().Set(rv)
+			growCaps(target.Elem(), 0)
+		}
+	}
 	var u *gotype.Unfolder
 	o := guard(func() error {
 		var err error
@@ -152,6 +163,8 @@ func checkC14(ci any, info *CaseInfo) string {
 			switch {
 			case merr != nil:
 				return fmt.Sprintf("unfolding reports success although the stream does not match the target (%v); result %+v\n  %s", merr, safeInterface(target.Elem()), desc)
+			case c.Pre != nil:
+				info.Class("prefilled_not_compared")
 			case !lossy:
 				if d := gomodel.GoEqual(expected.Elem(), target.Elem(), false); d != "" {
 					return fmt.Sprintf("unfolding reports success with another value than the stream holds: %s\n  expected %+v\n  got      %+v\n  %s", d, safeInterface(expected.Elem()), safeInterface(target.Elem()), desc)
@@ -220,6 +233,41 @@ func checkC14(ci any, info *CaseInfo) string {
 		return "the probe document wrote outside its target"
 	}
 	return ""
+}
+
+// growCaps gives every non-nil slice in v spare capacity holding non-zero
+// elements beyond its length (what a recycled target looks like).
+func growCaps(v reflect.Value, depth int) {
+	if depth > 8 {
+		return
+	}
+	switch v.Kind() {
+	case reflect.Ptr:
+		if !v.IsNil() {
+			growCaps(v.Elem(), depth+1)
+		}
+	case reflect.Struct:
+		for i := 0; i < v.NumField(); i++ {
+			if v.Field(i).CanSet() {
+				growCaps(v.Field(i), depth+1)
+			}
+		}
+	case reflect.Slice:
+		if v.IsNil() || !v.CanSet() {
+			return
+		}
+		n := v.Len()
+		grown := reflect.MakeSlice(v.Type(), n+2, n+3)
+		reflect.Copy(grown, v)
+		if n > 0 {
+			grown.Index(n).Set(v.Index(0))
+			grown.Index(n + 1).Set(v.Index(n - 1))
+		}
+		v.Set(grown.Slice(0, n))
+		for i := 0; i < n; i++ {
+			growCaps(v.Index(i), depth+1)
+		}
+	}
 }
 
 func depthAt(evs []model.Ev, idx int) int {
@@ -341,6 +389,10 @@ func drawC14(t *rapid.T) any {
 	if rapid.IntRange(0, 2).Draw(t, "abandon") == 2 && len(c.Evs) > 0 {
 		c.Abandon = rapid.IntRange(0, len(c.Evs)-1).Draw(t, "abandonat")
 	}
+	if typ, err := gomodel.Build(&c.Type); err == nil && rapid.IntRange(0, 3).Draw(t, "pre") == 0 {
+		gv := gomodel.DrawValue(t, typ, gomodel.ValCfg{Budget: 20})
+		c.Pre = &gv
+	}
 	if typ, err := gomodel.Build(&c.Type); err == nil && rapid.IntRange(0, 3).Draw(t, "probe2") > 0 {
 		gv := gomodel.DrawValue(t, typ, gomodel.ValCfg{Budget: 20})
 		if rv, err := gomodel.Materialize(typ, &gv); err == nil {
@@ -356,7 +408,7 @@ func drawC14(t *rapid.T) any {
 func init() {
 	register(&Property{
 		ID:            "C14",
-		Rule:          "(stream, target type) pairs: (i) drawn independently (mostly mismatching), (ii) a matching perturbed stream (C13 renderer) with one subtree replaced by another random value at a drawn position and depth (scalar<->array<->object, key where none is expected, wrong element kinds, typed containers), (iii) matching streams whose container start announces 2^16..2^63-1 elements that are not delivered; optionally abandoned after a drawn event index; then Reset + SetTarget(new variable of the same type) + a matching perturbed document of a second value (members omitted), then Reset + SetTarget + a fixed probe document of a fixed type. Oracle: no panic; TotalAlloc <= 256KiB + 512 B/event + 8 B/string byte; the target sits between sentinel words that must stay intact; a success must equal the reference assignment model on the same stream (compared when every number fits); after each Reset+SetTarget the result, outcome and stack depths equal a new unfolder's on the same document. non-trivial = an error at depth >= 1 or abandonment inside a nested container; distinct by case hash. The thorough tier repeats the search with the -race build (checkptr)",
+		Rule:          "(stream, target type) pairs: (i) drawn independently (mostly mismatching), (ii) a matching perturbed stream (C13 renderer) with one subtree replaced by another random value at a drawn position and depth (scalar<->array<->object, key where none is expected, wrong element kinds, typed containers), (iii) matching streams whose container start announces 2^16..2^63-1 elements that are not delivered; 1 in 4 targets already hold a generated value (non-nil slices with spare capacity, maps with entries, allocated pointers; safety oracles only); optionally abandoned after a drawn event index; then Reset + SetTarget(new variable of the same type) + a matching perturbed document of a second value (members omitted), then Reset + SetTarget + a fixed probe document of a fixed type. Oracle: no panic; TotalAlloc <= 256KiB + 512 B/event + 8 B/string byte; the target sits between sentinel words that must stay intact; a success must equal the reference assignment model on the same stream (compared when every number fits); after each Reset+SetTarget the result, outcome and stack depths equal a new unfolder's on the same document. non-trivial = an error at depth >= 1 or abandonment inside a nested container; distinct by case hash. The thorough tier repeats the search with the -race build (checkptr)",
 		New:           func() any { return &C14Case{} },
 		Draw:          drawC14,
 		Check:         checkC14,
